@@ -27,6 +27,10 @@ R13 the constructor defaults of MultipartParseOptions (part count, buffered
 R14 get_media() drains the part stream exactly when the resolved handler's
     exhaust_stream flag is set (both flavours; R1 compares the two, R14 pins
     the common meaning).
+R15, R16 shared reader rules of C14 (R8 / R9): what a delimited read hands out
+    is exactly what the cursor moves over (ASGI: cursor set before the yield;
+    sync: no fabricated byte, no blind cursor bump) - "independently of how much
+    of each earlier part the application chose to read".
 """
 
 from __future__ import annotations
@@ -359,9 +363,19 @@ def _counter(nm: Norm, lin: Linear, f):
     max_body_part_count (or a constant) and stepped by a constant."""
     C = _opt_atom(OPT_COUNT)
     cands = []
+    def self_step(name, d):
+        # `n = n + c` / `n = n - c` is read like `n += c` / `n -= c`
+        v = d[1]
+        if d[0] == 'assign' and isinstance(v, ast.BinOp) and isinstance(v.op, (ast.Add, ast.Sub)) and isinstance(v.left, ast.Name) \
+                and v.left.id == name and isinstance(d[2], ast.Name):
+            stmt = next((n for n in walk_no_nested(f.node) if isinstance(n, ast.Assign) and len(n.targets) == 1 and n.targets[0] is d[2]), None)
+            if stmt is not None:
+                return ('aug', v.op, v.right, stmt)
+        return None
+
     for name, ds in nm.defs.defs.items():
-        steps = [d for d in ds if d[0] == 'aug']
-        inits = [d for d in ds if d[0] == 'assign']
+        steps = [d for d in ds if d[0] == 'aug'] + [self_step(name, d) for d in ds if self_step(name, d) is not None]
+        inits = [d for d in ds if d[0] == 'assign' and self_step(name, d) is None]
         if len(steps) != 1 or len(inits) != 1 or len(ds) != 2:
             continue
         st = lin.form(steps[0][2])
@@ -1287,6 +1301,12 @@ class _ExactParam:
             for t in self.terminals(r.value, h, hdefs):
                 good = isinstance(t, ast.Call) and isinstance(self.p.callee(h, t), Func) and self.p.callee(h, t).qual == PARSE_HEADER \
                     and self.parse_header_call(t, h, hdefs)
+                if not good and isinstance(t, ast.Call) and isinstance(t.func, ast.Attribute) and attr_chain(t.func.value) == ('self',) \
+                        and not t.args and not t.keywords:
+                    # hands on what another argument-less method of the same class parsed (same object)
+                    h2 = self.p.lookup_method(self.cls.qual, t.func.attr)
+                    if h2 is not None and h2 is not h and not h2.is_property() and self.cd_parser(h2):
+                        continue
                 if not good:
                     def is_ph(x):
                         return isinstance(x, ast.Call) and isinstance(self.p.callee(h, x), Func) and self.p.callee(h, x).qual == PARSE_HEADER
@@ -1349,6 +1369,10 @@ class _ExactParam:
             return False
         if isinstance(e, ast.Subscript) and isinstance(e.slice, ast.Constant) and e.slice.value == 1:
             return self.is_cd_value(e.value, f, defs, depth + 1)
+        if isinstance(e, ast.Call) and isinstance(e.func, ast.Attribute) and attr_chain(e.func.value) == ('self',) and not e.args and not e.keywords:
+            # an argument-less method of the same class called on `self` (the same part): its summary is inlined
+            h = self.p.lookup_method(self.cls.qual, e.func.attr)
+            return h is not None and not h.is_property() and self.params_helper(h, depth + 1)
         if isinstance(e, ast.Name) and e.id not in defs.params:
             ds = defs.defs.get(e.id, [])
             if not ds:
@@ -1365,6 +1389,37 @@ class _ExactParam:
                     return False
             return True
         return False
+
+    _DICT_MUTATORS = ('update', 'pop', 'popitem', 'setdefault', 'clear', '__setitem__', '__delitem__')
+
+    def params_helper(self, h: Func, depth=0) -> bool:
+        """`h` (a method of the part class, called without arguments on `self`) hands back, on every return, the parameter
+        dictionary of the parsed Content-Disposition (provenance read inside `h` with the same rules) and does not
+        write into it."""
+        memo = self.__dict__.setdefault('_memo_params_helper', {})
+        if h.qual in memo:
+            return memo[h.qual]
+        memo[h.qual] = False        # (cycle guard)
+        a = h.node.args
+        if len(a.posonlyargs + a.args) != 1 or a.vararg or a.kwarg or a.kwonlyargs or h.nested:
+            return False
+        hdefs = self.Defs(h)
+        rets = [n for n in walk_no_nested(h.node) if isinstance(n, ast.Return)]
+        if not rets or any(r.value is None for r in rets):
+            return False
+        if not all(self.is_params(r.value, h, hdefs, depth + 1) for r in rets):
+            return False
+        for n in walk_no_nested(h.node):
+            tgt = None
+            if isinstance(n, ast.Subscript) and isinstance(n.ctx, (ast.Store, ast.Del)):
+                tgt = n.value
+            elif isinstance(n, ast.Call) and isinstance(n.func, ast.Attribute) and n.func.attr in self._DICT_MUTATORS:
+                tgt = n.func.value
+            if tgt is not None and self.is_params(tgt, h, hdefs, depth + 1):
+                raise UnknownIdiom('%s: writes into the parsed Content-Disposition parameters (`%s`)' % (h.qual, short(n)))
+        self.run.use(h)
+        memo[h.qual] = True
+        return True
 
     def param_read(self, e, f: Func, defs):
         """(key, default expr|None) when `e` is `<params>.get(<const>[, default])` / `<params>[<const>]`, else None."""
@@ -2296,6 +2351,13 @@ def check(run):
     # part contents are independent of the transport's chunking on ASGI only if a delimiter never spans three chunks of the reader's
     # source: every chunk but the last is at least as long as the one-chunk look-ahead of the delimiter search assumes (C14 R11)
     run.rule('R9', _c14.r11_min_chunk, 'ASGI: every normalised source chunk but the last covers the delimiter look-ahead (shared with C14 R11)', floor=3)
+    # "each part comes back with exactly the encoded content, independently of ... how much of each earlier part the application chose
+    # to read" rests on the readers' cursor: what a delimited read hands out is exactly what the cursor moves over (C14 R8 / R9), or
+    # the next part starts inside / behind its first bytes
+    run.rule('R15', _c14.r8_cursor_conservation, 'ASGI reader: the bytes a delimited read yields from the buffer are exactly the bytes the cursor moves '
+             'over, set before the yield (shared with C14 R8)', floor=9)
+    run.rule('R16', _c14.r9_sync_cursor_conservation, 'sync reader: the cursor stands behind the last byte handed out after every replacement / trim / '
+             'return - no fabricated bytes, no blind cursor bump (shared with C14 R9)', floor=8)
     run.rule('R10', r10_exact_names, 'BodyPart.name / .filename are exactly the parsed Content-Disposition parameters (RFC 5987 filename* decoding tabled)', floor=4)
     run.rule('R11', r11_quoted_string_scan, "parse_header's quoted-string scan: the quote parity is the tabled `quotes - backslash-quote pairs`; no further "
              'substring-count correction terms', floor=1)
